@@ -76,6 +76,39 @@ def functional_forms(res, case, sp, ch):
         res.fail('is_leaf(strict=False) is not "one node"', case)
 
 
+class _ListSub(list):
+    pass
+
+
+def constructor_argument_forms(res, case, ch, kw):
+    """treespec_tuple / treespec_list / treespec_dict build a tuple / list / dict node whatever container the
+    child treespecs are handed over in (a namedtuple, a list subclass, an OrderedDict, a defaultdict, an iterator)"""
+    ckw = dict(none_is_leaf=kw['none_is_leaf'], namespace=kw['namespace'])
+    kids = list(ch)[:3] or [optree.treespec_leaf(**ckw)]
+    n = len(kids)
+    NT = world.nt_class(0, n)
+    keys = [f'k{n - i}' for i in range(n)]          # insertion order differs from sorted order
+    pairs = list(zip(keys, kids))
+    forms = [
+        ('treespec_tuple', optree.treespec_tuple, tuple(kids), [NT(*kids), list(kids), iter(list(kids)), _ListSub(kids)], 3),
+        ('treespec_list', optree.treespec_list, list(kids), [_ListSub(kids), tuple(kids), NT(*kids), iter(list(kids))], 4),
+        ('treespec_dict', optree.treespec_dict, dict(pairs), [OrderedDict(pairs), defaultdict(int, pairs), list(pairs)], 5),
+    ]
+    for name, fn, plain, others, kind in forms:
+        base = attempt(lambda: fn(plain, **ckw))
+        if base[0] != 0:
+            res.fail(f'{name} raised on a plain container of child treespecs', case, base)
+            continue
+        if int(base[1].kind) != kind:
+            res.fail(f'{name} does not build a node of its own kind', case, f'{base[1]!r}')
+        for other in others:
+            r = attempt(lambda: fn(other, **ckw))
+            if r[0] != 0 or r[1] != base[1] or int(r[1].kind) != kind or repr(r[1]) != repr(base[1]) \
+                    or r[1].entries() != base[1].entries() or r[1].__getstate__() != base[1].__getstate__():
+                res.fail(f'{name} depends on the container the children are handed over in', case,
+                         f'{type(other).__name__}: {str(r)[:200]} vs {base[1]!r}')
+
+
 def oracle_inspect(res, cfg, o, rng):
     case = (2, cfg, o)
     with World(cfg) as w:
@@ -120,6 +153,7 @@ def oracle_inspect(res, cfg, o, rng):
         elif sp.is_one_level():
             res.fail('is_one_level is true for a leaf', case)
         functional_forms(res, case, sp, ch)
+        constructor_argument_forms(res, case, ch, kw)
         if len(sp) != sp.num_leaves:
             res.fail('len(treespec) differs from num_leaves', case)
         if sp.transform() != sp or sp.transform(lambda s: s, lambda s: s) != sp:
